@@ -12,6 +12,10 @@ def swarm(rng):
     cfg["focus"] = rng.choice(["mixed", "struct", "refs", "values"])
     cfg["n_steps"] = rng.choice([10, 16, 24])
     cfg["relative_outside"] = rng.random() < 0.0
+    if rng.random() < 0.35:
+        # wide and deep inheritance between top-level spaces: rejections that arise two or more levels below the edited space
+        cfg.update({"tops": ["A", "B", "C", "D", "E", "F"], "n_spaces": 6, "max_depth": 1, "p_bases": 0.9, "focus": "struct",
+                    "p_sformula": 0.0})
     return cfg
 
 
@@ -31,6 +35,10 @@ class RejectOracle(history.Oracle):
         if mach.sched.random() < self.run.cfg.get("p_hostile", 0.5):
             cands = hostile.candidates(mach)
             if cands:
+                # a rejection reason first, then one of its instances: rare reasons are drawn as often as common ones
+                whys = sorted({c.get("why", "?") for c in cands})
+                why = whys[mach.sched.randrange(len(whys))]
+                cands = [c for c in cands if c.get("why", "?") == why]
                 op = dict(cands[mach.sched.randrange(len(cands))])
                 self.ctx.count(op.get("why", "?"), 1, "hostile_generated")
                 return op
